@@ -42,6 +42,8 @@ SUBJECTS = ["TestResult", "TextTestResult", "Multi[ext,real]", "TFR[ext]", "TFR[
 
 
 class Subject:
+    side = None
+
     def __init__(self, name):
         import testtools
         from .. import histories as H
@@ -101,6 +103,9 @@ class Subject:
         elif n == "Multi[Tagger[ext],ext]":
             # the multiplexer's own view must not be borrowed from a tag-changing constituent
             tagged_log = recorders.Log()
+            # (what the constituent BEHIND the Tagger observes is checked too: every call reaches it, the Tagger's
+            # own changes are made at startTest)
+            self.side = (tagged_log, frozenset(["tg"]), frozenset(["a"]))
             self.top = testtools.MultiTestResult(
                 testtools.Tagger(H.make_leaf("ext", tagged_log), {"tg"}, {"a"}), leaf("ext"))
         elif n == "TBT":
@@ -131,6 +136,7 @@ def x_hist(ctx, case):
     top = subject.top
     history = case["history"]
     run_tags, cur = set(), None
+    side_run, side_cur, side_outcomes = set(), None, []     # the same for a constituent behind a Tagger
     outcome_tags = []   # (test id, model tags at outcome)
     stop_tags = []      # (test id, model tags at stopTest)
     tests = {}
@@ -152,6 +158,7 @@ def x_hist(ctx, case):
             if kind == "startTestRun":
                 top.startTestRun()
                 run_tags, cur = set(), None
+                side_run, side_cur = set(), None
             elif kind == "stopTestRun":
                 top.stopTestRun()
             elif kind == "tags":
@@ -159,14 +166,20 @@ def x_hist(ctx, case):
                 tgt = cur if cur is not None else run_tags
                 tgt |= set(op[1])
                 tgt -= set(op[2])
+                stgt = side_cur if side_cur is not None else side_run
+                stgt |= set(op[1])
+                stgt -= set(op[2])
             elif kind == "startTest":
                 top.startTest(test_obj(op[1]))
                 cur = set(run_tags)
                 if subject.tagger:
                     cur |= subject.tagger[0]
                     cur -= subject.tagger[1]
+                if subject.side:
+                    side_cur = (set(side_run) | subject.side[1]) - subject.side[2]
             elif kind == "outcome":
                 outcome_tags.append(("t%s" % op[1], frozenset(model())))
+                side_outcomes.append(("t%s" % op[1], frozenset(side_cur if side_cur is not None else side_run)))
                 t = test_obj(op[1])
                 name = op[2]
                 if name == "addSkip":
@@ -180,7 +193,9 @@ def x_hist(ctx, case):
                 stop_tags.append(("t%s" % op[1], frozenset(model())))
                 top.stopTest(test_obj(op[1]))
                 cur = None
+                side_cur = None
             elif kind == "skip_nostart":
+                side_outcomes.append(("t%s" % op[1], frozenset(side_run)))
                 outcome_tags.append(("t%s" % op[1], frozenset(model())))
                 stop_tags.append(("t%s" % op[1], frozenset(model())))
                 top.addSkip(test_obj(op[1]), "why")
@@ -193,6 +208,8 @@ def x_hist(ctx, case):
                     inside -= subject.tagger[1]
                 outcome_tags.append(("p%s" % op[1], frozenset(inside)))
                 stop_tags.append(("p%s" % op[1], frozenset(inside)))
+                if subject.side:
+                    side_outcomes.append(("p%s" % op[1], frozenset(((set(side_run) | subject.side[1]) - subject.side[2]) | ptags)))
                 handed = set(ptags)
                 ph = testtools.PlaceHolder("p%s" % op[1], outcome=op[3], tags=handed)
                 # the caller goes on using the set it built the PlaceHolder from (replaying a log, say)
@@ -200,6 +217,7 @@ def x_hist(ctx, case):
                 handed.add("callers-next-tag")
                 ph.run(top)
                 run_tags -= ptags
+                side_run -= ptags
             try:
                 got = set(top.current_tags)
             except Exception as e:  # noqa
@@ -224,6 +242,10 @@ def x_hist(ctx, case):
         seen = [(e.test, e.payload["tags"]) for e in log.events if e.name in recorders.OUTCOMES]
         ctx.check(seen == outcome_tags, "leaf-observes-reporter-tags-at-outcome",
                   lambda: {"seen": seen, "want": outcome_tags, **detail()})
+    if subject.side:
+        seen = [(e.test, e.payload["tags"]) for e in subject.side[0].events if e.name in recorders.OUTCOMES]
+        ctx.check(seen == side_outcomes, "leaf-observes-reporter-tags-at-outcome",
+                  lambda: {"the constituent behind the Tagger saw": seen, "want": side_outcomes, **detail()})
     if subject.tbt_calls or "TBT" in case["subject"]:
         ctx.check(subject.tbt_calls == stop_tags, "tbt-observes-reporter-tags-at-stopTest",
                   lambda: {"seen": subject.tbt_calls, "want": stop_tags, **detail()})
@@ -240,6 +262,20 @@ def x_hist(ctx, case):
         dict_tags = [(d["id"], snap) for d, snap in subject.dicts]
         ctx.check(dict_tags == outcome_tags, "streamtodict-tags-at-outcome",
                   lambda: {"seen": dict_tags, "want": outcome_tags, **detail()})
+        # ... and a test rebuilt from such a dict with the public test_dict_to_case() carries them when it is run
+        from testtools.testresult.real import test_dict_to_case
+        replayed = []
+        for d, snap in subject.dicts:
+            rlog = recorders.Log()
+            try:
+                test_dict_to_case(d).run(recorders.ExtRecorder(rlog))
+            except Exception as e:  # noqa
+                replayed.append((d["id"], repr(e)))
+                continue
+            outs = [e for e in rlog.events if e.name in recorders.OUTCOMES]
+            replayed.append((d["id"], frozenset(outs[0].payload["tags"]) if outs else None))
+        ctx.check(replayed == outcome_tags, "streamtodict-tags-at-outcome",
+                  lambda: {"replayed through test_dict_to_case": replayed, "want": outcome_tags, **detail()})
     return any(op[0] == "tags" for op in history) and bool(outcome_tags)
 
 
@@ -290,7 +326,39 @@ def x_tfr_fault(ctx, case):
     return True
 
 
-SUBCHECKS = {"hist": x_hist, "tfr_fault": x_tfr_fault}
+def x_raw_stream(ctx, case):
+    """A reporter that speaks the stream protocol itself and tags EVERY event of a test with the tags current at
+    that moment (what subunit streams look like): a consumer - StreamToDict, StreamToExtendedDecorator - observes
+    the tags of the test's final event, i.e. those current at its outcome, not a mixture with earlier ones."""
+    import testtools
+    dicts = []
+    far = recorders.Log()
+    consumers = [testtools.StreamToDict(dicts.append), testtools.StreamToExtendedDecorator(recorders.ExtRecorder(far))]
+    for c in consumers:
+        c.startTestRun()
+    want = []
+    for i, t in enumerate(case["tests"]):
+        tid = "r%d" % i
+        events = [dict(test_id=tid, test_status="inprogress", test_tags=set(t["start"]))]
+        for k, mid in enumerate(t.get("mid", [])):
+            events.append(dict(test_id=tid, file_name="f%d" % k, file_bytes=b"x", eof=True, mime_type="text/plain",
+                               test_tags=set(mid)))
+        events.append(dict(test_id=tid, test_status=t["status"], test_tags=set(t["end"])))     # (a set, also when empty: None would mean "nothing said")
+        for c in consumers:
+            for e in events:
+                c.status(**e)
+        want.append((tid, frozenset(t["end"])))
+    for c in consumers:
+        c.stopTestRun()
+    got_d = [(d["id"], frozenset(d["tags"])) for d in dicts]
+    got_f = [(e.test, frozenset(e.payload["tags"])) for e in far.events if e.name in recorders.OUTCOMES]
+    ctx.check(got_d == want, "streamtodict-tags-at-outcome", lambda: {"seen": got_d, "want": want, "case": case})
+    ctx.check(got_f == want, "leaf-observes-reporter-tags-at-outcome",
+              lambda: {"behind StreamToExtendedDecorator": got_f, "want": want, "case": case})
+    return any(set(t["start"]) != set(t["end"]) for t in case["tests"])
+
+
+SUBCHECKS = {"hist": x_hist, "tfr_fault": x_tfr_fault, "raw_stream": x_raw_stream}
 
 ALPHABET = [["tags", ["a"], []], ["tags", ["b"], ["a"]], ["tags", [], ["b"]], ["startTest"], ["outcome", "addSuccess"],
             ["outcome", "addError"], ["stopTest"], ["skip_nostart"], ["startTestRun"], ["placeholder", ["p"], "addSuccess"]]
@@ -395,4 +463,16 @@ def run(ctx):
     for i in range(ctx.scale(6000, 500000)):
         if ctx.out_of_time():
             break
-        ctx.execute("hist", {"subject": rng.choice(SUBJECTS), "history": random_history(rng)})
+        if i % 25 == 0:
+            pool = ["a", "b", "c", ""]
+            ctx.execute("raw_stream", {"tests": [
+                {"start": rng.sample(pool, rng.randint(0, 3)), "end": rng.sample(pool, rng.randint(0, 3)),
+                 "mid": [rng.sample(pool, rng.randint(0, 3)) for _ in range(rng.randint(0, 2))],
+                 "status": rng.choice(["success", "fail", "skip", "xfail", "uxsuccess"])}
+                for _ in range(rng.randint(1, 4))]})
+        subj, hist = rng.choice(SUBJECTS), random_history(rng)
+        if subj == "Multi[Tagger[ext],ext]" and rng.random() < 0.6:
+            # the reporter also names the tag the Tagger below adds (a test declaring itself "not tg")
+            hist = [[op[0], ["tg" if t == "c" else t for t in op[1]], ["tg" if t == "c" else t for t in op[2]]]
+                    if op[0] == "tags" else op for op in hist]
+        ctx.execute("hist", {"subject": subj, "history": hist})
